@@ -95,12 +95,11 @@ def pairwiseDistance (add sub : α → α → α) (pre post : α → α) (eps : 
   (bin sub (lift a) (lift b)).bind fun d =>
     vectorNormO add pre post (un (fun t => add t eps) d) (some [-1]) keep
 
-/-- `view::broadcast_arrays(lhs, rhs)`: both operands broadcast to the common shape -/
+/-- `view::broadcast_arrays(lhs, rhs)`: both operands broadcast to the common shape (`ufunc2` is `broadcast_arrays`
+    followed by an element function; pairing keeps both broadcast operands) -/
 def broadcast2 (a b : OArr α) : Option (OArr α × OArr α) :=
-  (broadcastArraysViews [a.shape, b.shape]).bind fun vs =>
-    match vs with
-    | [va, vb] => some (⟨va.dst, fun d => (va.read a d).join⟩, ⟨vb.dst, fun d => (vb.read b d).join⟩)
-    | _ => none
+  (ufunc2 (fun (x y : Option α) => (x, y)) a b).map fun u =>
+    (⟨u.shape, fun d => ((u.get d).map Prod.fst).join⟩, ⟨u.shape, fun d => ((u.get d).map Prod.snd).join⟩)
 
 /-- `view::cosine_similarity(lhs, rhs, axis, eps)`: on the broadcast operands `a`, `b`:
     `ln = maximum(vector_norm(a, axis, keepdims=True), eps)`, `rn` likewise,
